@@ -284,14 +284,31 @@ impl TopologicalSortMachine
                                     currently on */
                                 if indices_in_stack.contains(buffer_index)
                                 {
-                                    let mut target_cycle = vec![];
-                                    for f in stack.iter()
+                                    match stack.iter().position(|f| f.index == *buffer_index && !f.visited)
                                     {
-                                        target_cycle.push(f.targets[f.sub_index].clone());
-                                    }
-                                    target_cycle.push(frame.targets[frame.sub_index].clone());
+                                        /*  Not an ancestor, just a sibling waiting its turn on the stack: it has
+                                            to be handled before the current frame, so move it up. */
+                                        Some(position) =>
+                                        {
+                                            let mut sibling = stack.remove(position);
+                                            indices_in_stack.remove(&sibling.index);
+                                            sibling.sub_index = *sub_index;
+                                            reverser.push(sibling);
+                                        },
 
-                                    return Err(TopologicalSortError::CircularDependence(target_cycle));
+                                        /*  An ancestor of the current frame: that is a cycle. */
+                                        None =>
+                                        {
+                                            let mut target_cycle = vec![];
+                                            for f in stack.iter()
+                                            {
+                                                target_cycle.push(f.targets[f.sub_index].clone());
+                                            }
+                                            target_cycle.push(frame.targets[frame.sub_index].clone());
+
+                                            return Err(TopologicalSortError::CircularDependence(target_cycle));
+                                        },
+                                    }
                                 }
                             }
                         },
